@@ -466,6 +466,52 @@ func stDesc(c *stCase) Verdict {
 			}
 		}
 	}
+	// a sample far from zero (x + 2^30, exact): mean and variance are those of x, shifted - to within a
+	// few ulps of the data's scale, however small the spread is next to the magnitude
+	if c.HasVar {
+		const off = 1 << 30
+		for pi, perm := range perms {
+			if pi > 1 {
+				break
+			}
+			X := make([]float64, len(perm))
+			for i, e := range perm {
+				X[i] = float64(e) + off
+			}
+			conc := fmt.Sprintf("Sample{Xs: x + 2^30 for x in %v}", perm)
+			tol := 1e-13 * off
+			for _, g := range []struct {
+				name string
+				v    float64
+			}{{"Sample.Variance", stats.Sample{Xs: stCopy(X)}.Variance()}, {"Variance", stats.Variance(stCopy(X))}} {
+				if math.IsNaN(g.v) || math.Abs(g.v-c.Var.f()) > tol {
+					return *stFail("variance/far-from-zero", conc, c.Var, g.v, "%s=%v; exact variance %d/%d", g.name, g.v, c.Var[0], c.Var[1])
+				}
+			}
+			if m := stats.Mean(stCopy(X)); math.IsNaN(m) || math.Abs(m-off-c.Mean.f()) > tol {
+				return *stFail("mean/far-from-zero", conc, c.Mean, m, "Mean=%v; exact mean 2^30 + %d/%d", m, c.Mean[0], c.Mean[1])
+			}
+		}
+	}
+	// constant samples of values that are not dyadic: zero variance, reported as an error by the t-tests
+	if n >= 2 {
+		for _, val := range []float64{0.1, 1.0 / 3, 7.3, 1e9 + 0.1, -2.7e-5} {
+			K := make([]float64, n)
+			for i := range K {
+				K[i] = val
+			}
+			conc := fmt.Sprintf("Sample of %d times %v", n, val)
+			if v := stats.Variance(stCopy(K)); v != 0 {
+				return *stFail("variance/constant", conc, 0, v, "Variance=%v for a constant sample", v)
+			}
+			if _, err := stats.OneSampleTTest(stats.Sample{Xs: stCopy(K)}, 0, stats.LocationDiffers); err != stats.ErrZeroVariance {
+				return *stFail("ttest-error-class", conc, "ErrZeroVariance", fmt.Sprint(err), "OneSampleTTest on a constant sample: error %v", err)
+			}
+			if _, err := stats.TwoSampleWelchTTest(stats.Sample{Xs: stCopy(K)}, stats.Sample{Xs: stCopy(K)}, stats.LocationDiffers); err != stats.ErrZeroVariance {
+				return *stFail("ttest-error-class", conc, "ErrZeroVariance", fmt.Sprint(err), "TwoSampleWelchTTest on two constant samples: error %v", err)
+			}
+		}
+	}
 	for _, xf := range xfs {
 		for pi, perm := range perms {
 			if v := stDescOne(c, xf, perm, false); v != nil {
